@@ -4,11 +4,12 @@ PROP = dict(
     trusted_base=[
         "elements of collections are modelled by their meaning (V): CallAll/SeqArrowExpr/Concatenate treat them opaquely; "
         "Equal/Hash of element values agreeing with equality of meanings is C02's obligation",
-        "a.Count() in Concatenate is taken to be the number of members (C01's obligation)",
-        "frozen.Map.Get / frozen.Set as finite maps/sets with distinct keys; Go map iteration order of the builder's buckets "
-        "is immaterial (the model fixes one order, the theorems quantify over all lists)",
-        "NewTuple's re-specialisation of (@, @char/@byte/@item/@value) tuples is modelled by `classify` on integer indices "
-        "and in-range chars/bytes only",
+        "frozen.Map.Get / frozen.Set as finite maps/sets with distinct keys/members (the decidable invariants Coll.wf / Coll.wfCount); "
+        "Go map iteration order of the builder's buckets is immaterial (the model fixes one order, the theorems quantify over all lists)",
+        "String.holes is the number of negative runes (NewOffsetString and asString compute it by counting; String.Without's "
+        "incremental maintenance is C01's)",
+        "wfCount (members held once, buckets disjoint) is proved to give Count() = number of members, but is not proved to be "
+        "re-established by the set builder (wf is: results_wf); the correspondence run exercises ++ on builder results",
     ],
     assumptions=[
         "relations are modelled with their PHYSICAL column order (Bucket.rel atFirst): the builder sorts the heading (so `@` is "
@@ -16,27 +17,29 @@ PROP = dict(
         "`relshape` reads the real layout by reflection and a wrong prediction shows up as drift",
         "numbers are integers (|n| small) plus the non-integers n+1/2 as call arguments and offsets; chars 97..101, bytes "
         "0..255, offsets in {-2..5}, sequences of length <= 4 (<= 12 after ++), dict/relation keys from a pool of 7 values",
-        "not generated (other properties' defects in this worktree): `with`, `|` of two sequences of the same kind, "
-        "`without` on byte arrays, `where`/`without` on dicts, a multi-valued dict as left operand of ++, sugar-named pairs "
-        "with a non-numeric index, non-char results of >> on a UnionSet that holds chars (NewTuple conversions, pinned panics)",
-        "an argument EXPRESSION that itself fails with a missing attribute also triggers the ?: fallback "
-        "('abc'((a:1).b)?:9 = 9); arguments are values here",
+        "sugar-named tuples (@item/@char/@byte) with a NON-NUMERIC index panic in NewTuple/specialTuple (pinned by the suite, C10): "
+        "not generated, and the model's classify treats them as plain pairs",
+        "a set whose meaning is a pure string / byte array is assumed to be held as String / Bytes (hypothesis modeOf = generic of the "
+        "generic-loop theorems); chars above U+10FFFF, which >> on a String accepts but NewTuple does not specialise, fall outside",
+        "not generated (other properties' defects): `with`, `|` of two sequences of the same kind, `without` on byte arrays or at "
+        "an end of a sequence, `where`/`without` on dicts",
     ],
-    level_text="Proof: 19 Lean theorems. Specification = the property (a call returns v iff v is the only value paired with the key; "
-               "no-value / more-than-one errors characterised; >> keeps every (key, attribute) pair). The transliterated Go code refines it: "
-               "call_refines (SetCall over CallAll of String/Bytes/Array/Dict/Relation/UnionSet/TrueSet/EmptySet = Spec.call on the meaning, incl. the "
-               "error class), call_rep_indep, safecall_refines/safecall_fallback (fallback iff no value), seqarrow_refines (String/Bytes/Array/Dict: "
-               "values mapped, keys/offsets/holes kept, error iff the specification has one), offset_refines, offset_bad_error, offset_compose, "
-               "concat_error_iff, results_wf (results of >>, ++, \\ are well-formed, so the theorems compose) - all at full strength, for all inputs. Through the set builder (asString/asBytes/asArray/NewDict/relations, proved "
-               "exact on representable sets): concat_refines_partial and seqarrow_set_refines_partial/seqarrow_set_error carry the hypothesis "
-               "'the specified result is representable' (outside KF-superimposed/KF-bytes-holes); concat_full_false and seqarrow_full_false are "
-               "machine-checked witnesses that the full statements fail. The model is tied to the Go code by running both on generated arr.ai "
-               "programs on every run (error classes observed by type assertion, never by message).",
+    level_text="Proof: 26 Lean theorems. Specification = the property (call returns v iff v is the only value paired with the key; no-value / "
+               "more-than-one characterised; >> keeps every (key, attribute) pair). The transliterated Go code refines it, at full strength "
+               "for all inputs: call_refines and call_total (SetCall over CallAll of all 9 representations = Spec.callAny on the meaning incl. "
+               "the error class, for keyed AND non-keyed sets), call_rep_indep(_total), safecall_refines/safecall_fallback, seqarrow_refines "
+               "(String/Bytes/Array/Dict), seqarrow_set_error_iff + seqarrow_set_error_class + seqarrow_nonkeyed_error (the generic loop is proved "
+               "EQUAL to the specification's member map: setLoop_eq), offset_refines/offset_bad_error/offset_compose, concat_error_iff, "
+               "count_is_card (Count() of every representation = number of members; no longer trusted), results_wf. Through the set builder "
+               "(proved exact on representable sets): concat_refines_partial and seqarrow_set_refines_partial carry the hypothesis 'the specified "
+               "result is representable' (KF-superimposed/KF-bytes-holes) with machine-checked witnesses concat_full_false, seqarrow_full_false. "
+               "safecall_fallback_partial / safecall_fallback_full_false: a failing ARGUMENT expression (missing attribute) triggers ?: "
+               "(KF-safecall-arg-missing-attr). Tied to the Go code by running both on generated arr.ai programs on every run.",
     design_ref="DESIGN.md section 6, C05",
     watch=["rel.SetCall", "rel.Call", "rel.String.CallAll", "rel.Bytes.CallAll", "rel.Array.CallAll", "rel.Dict.CallAll",
            "rel.Relation.CallAll", "rel.positionalRelation.CallAll", "rel.Relation.getAttrIndex", "rel.Relation.Join", "rel.relationBuilder.Finish", "rel.UnionSet.CallAll", "rel.GenericSet.CallAll",
            "rel.EmptySet.CallAll", "rel.TrueSet.CallAll", "rel.SeqArrowExpr.Eval", "rel.Concatenate", "rel.OffsetExpr.Eval",
            "rel.NewOffsetArray", "rel.NewOffsetString", "rel.NewOffsetBytes", "rel.asString", "rel.asBytes", "rel.asArray",
-           "rel.NewDict", "rel.SetBuilder.Finish", "rel.SafeTailExpr.Eval", "syntax.ParseContext.compileSafeTails",
+           "rel.NewDict", "rel.Dict.Count", "rel.String.Count", "rel.Array.Count", "rel.Bytes.Count", "rel.Relation.Count", "rel.UnionSet.Count", "rel.specialTuple", "rel.NewTuple", "rel.SetBuilder.Finish", "rel.SafeTailExpr.Eval", "syntax.ParseContext.compileSafeTails",
            "syntax.ParseContext.compileTailFunc"],
 )
